@@ -1404,3 +1404,48 @@ Theorem C16_six_generators_deterministic : forall up bl c1 c2 t1 t2 d1 d2 b1 b2,
   NushellModel.generate_nushell c1 d1 b1 = NushellModel.generate_nushell c2 d2 b2.
 Proof. exact CrossShell.six_generators_deterministic. Qed.
 Print Assumptions C16_six_generators_deterministic.
+
+(* ---- zsh: multi-valued positionals, exactly (round 3) ---- *)
+(** [Complete/ZshPositionals.v].  [write_positionals_of] = the lines of the positionals [pos_kept] keeps, each with the cardinality
+    prefix [pos_card]: ["*:"] for a multi-valued positional of a command without subcommands (the catch-all), [":"] for an
+    optional one, nothing for a required one ... *)
+From ClapModel Require Complete.ZshPositionals.
+Theorem C16_zsh_positionals_exact : forall c d,
+  write_positionals_of c d =
+  zjoin znl (map (fun p => positional_line (ZshPositionals.pos_card (has_subcommands c) p) p)
+                 (ZshPositionals.pos_kept (has_subcommands c) false (filter is_pos (zipd ad0 (c_args c) (cd_args d))))).
+Proof. exact ZshPositionals.write_positionals_exact. Qed.
+Print Assumptions C16_zsh_positionals_exact.
+
+(** ... where [pos_kept] is: with subcommands, all of them; without, everything up to and including the FIRST multi-valued
+    positional, then only the single-valued ones (a second catch-all is never written: the comment in zsh.rs) ... *)
+Theorem C16_zsh_positionals_kept :
+  (forall l, ZshPositionals.pos_kept true false l = l) /\
+  (forall l1 p l2, Forall (fun q => ZshPositionals.multi q = false) l1 -> ZshPositionals.multi p = true ->
+     ZshPositionals.pos_kept false false (l1 ++ p :: l2) = l1 ++ p :: filter (fun q => negb (ZshPositionals.multi q)) l2) /\
+  (forall hs l ce, Forall (fun q => ZshPositionals.multi q = false) l -> ZshPositionals.pos_kept hs ce l = l).
+Proof.
+  exact (conj ZshPositionals.pos_kept_with_subcommands
+           (conj ZshPositionals.pos_kept_first_catch_all ZshPositionals.pos_kept_no_multi)).
+Qed.
+Print Assumptions C16_zsh_positionals_kept.
+
+(** ... and in the class clap's own configuration check accepts (at most one multi-valued positional when no argument carries
+    [last]; two of them: the harness answers INVALID) EVERY positional has its line *)
+Theorem C16_zsh_positionals_valid : forall c d,
+  (List.length (filter ZshPositionals.multi (filter is_pos (zipd ad0 (c_args c) (cd_args d)))) <= 1)%nat ->
+  write_positionals_of c d =
+  zjoin znl (map (fun p => positional_line (ZshPositionals.pos_card (has_subcommands c) p) p)
+                 (filter is_pos (zipd ad0 (c_args c) (cd_args d)))).
+Proof. exact ZshPositionals.write_positionals_valid. Qed.
+Print Assumptions C16_zsh_positionals_valid.
+
+Theorem C16_zsh_positionals_example :
+  map (fun p => a_id (fst p))
+      (ZshPositionals.pos_kept false false
+         [(ZshPositionals.zp_arg [102; 105; 108; 101; 115] 5, ad0); (ZshPositionals.zp_arg [109; 111; 114; 101] 5, ad0);
+          (ZshPositionals.zp_arg [108; 97; 115; 116] 1, ad0)])
+  = [[102; 105; 108; 101; 115]; [108; 97; 115; 116]] /\
+  ZshPositionals.pos_card false (ZshPositionals.zp_arg [102; 105; 108; 101; 115] 5, ad0) = [42; 58].
+Proof. exact ZshPositionals.pos_kept_example. Qed.
+Print Assumptions C16_zsh_positionals_example.
